@@ -16,7 +16,7 @@ RULE = ("one case = one run with a callback recording every iterate; families co
         "A second kind restarts from a returned result with a gradient scaler (over an unscaled, or an already scaled, checkpoint) and judges the restarted leg.")
 ASSUMPTIONS = ["harness objective closures are pure, so re-evaluation reproduces the values the solver saw",
                "runs whose start value is not finite are skipped and counted"]
-FAMS = gen.ALL_FAMILIES + ("exp_wall", "badly_scaled", "rosenbrock", "oscillating", "quantized", "quantized", "qp_inf_region", "qp_nan_region", "qp_nan_region")
+FAMS = gen.ALL_FAMILIES + ("exp_wall", "badly_scaled", "rosenbrock", "oscillating", "quantized", "quantized", "qp_inf_region", "qp_nan_region", "qp_nan_region", "flat")
 
 
 def floors(tier):
